@@ -589,6 +589,15 @@ func init() {
 		i.ex.assertCond(i, args[0].(*Term), argStr(fr, args[1]), where)
 		return nil
 	}
+	vndIntrinsics["vndAnd"] = func(fr *frame, args []value) value {
+		return fr.i.b.And(args[0].(*Term), args[1].(*Term))
+	}
+	vndIntrinsics["vndOr"] = func(fr *frame, args []value) value {
+		return fr.i.b.Or(args[0].(*Term), args[1].(*Term))
+	}
+	vndIntrinsics["vndIteInt"] = func(fr *frame, args []value) value {
+		return fr.i.b.Ite(args[0].(*Term), args[1].(*Term), args[2].(*Term))
+	}
 	vndIntrinsics["vndReach"] = func(fr *frame, args []value) value {
 		r := fr.i.ex.run
 		l := argStr(fr, args[0])
